@@ -38,7 +38,17 @@ impl<const N: usize, Value> IndexMap<N, Value> {
 
     #[inline(always)]
     pub(crate) unsafe fn delete(&mut self, index: usize) {
-        *self.index.get_unchecked_mut(index) = Self::NULL
+        let position = *self.index.get_unchecked(index);
+        if position != Self::NULL {
+            /* drop the entry itself, not only the pointer to it: a stale entry would be
+               yielded again by `iter` once `index` is set anew, and would let `values` grow
+               beyond what the `u8` pointers can address */
+            self.values.remove(position as usize);
+            for (i, _) in self.values.get_unchecked(position as usize..) {
+                *self.index.get_unchecked_mut(*i) -= 1
+            }
+            *self.index.get_unchecked_mut(index) = Self::NULL
+        }
     }
 
     #[inline(always)]
